@@ -99,7 +99,8 @@ def scenario(c):
                 blk = g.getBlockFromDict({d - 1: N[d - 1] - 1, 0: range(0, max(1, N[0] // 2))}, comm, root)
             return [None if x is None else float(x) for x in out]
     elif kind == 'setupsave':
-        nranks, given = P
+        nranks, given = P[:2]
+        sroot = P[2] if len(P) > 2 else 0
         tmp = tempfile.mkdtemp(dir='/var/tmp', prefix='pgv_c06_')
 
         def work(comm):
@@ -107,9 +108,9 @@ def scenario(c):
             from pygyro.initialisation.constants import Constants
             c0 = Constants()
             if given:
-                f1 = setupSave(c0, os.path.join(tmp, 'given'), comm=comm, root=0)
+                f1 = setupSave(c0, os.path.join(tmp, 'given'), comm=comm, root=sroot)
             else:
-                f1 = setupSave(c0, None, comm=comm, root=0)      # creates simulation_<i> in the cwd (= tmp)
+                f1 = setupSave(c0, None, comm=comm, root=sroot)      # creates simulation_<i> in the cwd (= tmp)
             return os.path.basename(str(f1))
     elif kind == 'plotthread':
         nranks, npts = P
@@ -247,6 +248,10 @@ def run():
     for nr in (1, 2, 3):
         scen.append(('setupsave', (nr, True)))
         scen.append(('setupsave', (nr, False)))
+    # a root other than rank 0 (every member must name the same root in the broadcast of the folder name)
+    scen.append(('setupsave', (3, False, 2)))
+    scen.append(('setupsave', (2, False, 1)))
+    scen.append(('setupsave', (3, True, 1)))
     scen.append(('plotthread', (3, [8, 8, 8, 8])))
     scen.append(('diagnostics', (2, [8, 8, 8, 8], 3)))
     scen.append(('diagnostics', (4, [8, 8, 8, 8], 2)))
